@@ -62,15 +62,46 @@ def survey(prog):
 def load_table():
     with open(TABLE) as fh:
         d = json.load(fh)
-    return {(e["function"], e["op"]): e["count"] for e in d["entries"]}, set(d["functions"])
+    return {(e["function"], e["op"]): e["count"] for e in d["entries"]}, set(d["functions"])  # dict or list: its keys
+
+
+def renames(prog, edges=None, funcs=None):
+    """{new function: the reviewed function it is a renaming of}: a function that did not exist at review time, in the
+    same module / impl as one that has vanished since, and called from exactly the (renamed) callers recorded for it"""
+    with open(TABLE) as fh:
+        d = json.load(fh)
+    recorded = d["functions"]
+    if not isinstance(recorded, dict):
+        return {}
+    if edges is None or funcs is None:
+        _c, _w, edges, funcs = survey(prog)
+    callers = collections.defaultdict(set)
+    for f, gs in edges.items():
+        for g in gs:
+            callers[g].add(f)
+    vanished = set(recorded) - funcs
+    new = funcs - set(recorded)
+    mapping = {}
+    parent = lambda x: x.rsplit("::", 1)[0]  # noqa: E731
+    changed = True
+    while changed:
+        changed = False
+        for g in sorted(new - set(mapping)):
+            mapped_callers = {mapping.get(c, c) for c in callers.get(g, ())}
+            cands = [f for f in sorted(vanished - set(mapping.values())) if parent(f) == parent(g) and set(recorded[f]) == mapped_callers]
+            if len(cands) == 1:
+                mapping[g] = cands[0]
+                changed = True
+    return mapping
 
 
 def check(prog, chk, prefixes, what):
     table, known = load_table()
     cnt, where, edges, funcs = survey(prog)
+    ren = renames(prog, edges, funcs)
     pre = tuple(prefixes)
-    scope = {f for f in funcs if f.startswith(pre)}
-    new = funcs - known
+    scope = {f for f in funcs if ren.get(f, f).startswith(pre)}
+    new = funcs - known - set(ren)
     work = list(scope)
     while work:
         f = work.pop()
@@ -91,13 +122,15 @@ def check(prog, chk, prefixes, what):
         n_ob += 1
         diff = []
         loc = "-"
-        for f in sorted({f for (f, o) in list(cnt) + list(table) if o == op and (f in scope or f.startswith(pre))}):
-            a, b = cnt.get((f, op), 0) if f in scope else 0, table.get((f, op), 0)
-            if loc == "-" and (f, op) in where:
-                loc = where[(f, op)]
+        inv = {v: k for k, v in ren.items()}
+        for f in sorted({ren.get(f, f) for (f, o) in list(cnt) + list(table) if o == op and (f in scope or ren.get(f, f).startswith(pre))}):
+            cur = inv.get(f, f)
+            a, b = cnt.get((cur, op), 0) if cur in scope else 0, table.get((f, op), 0)
+            if loc == "-" and (cur, op) in where:
+                loc = where[(cur, op)]
             if a != b:
                 diff.append(f"{f.replace('svgdx::', '')}: {b} -> {a}")
-                loc = where.get((f, op), loc)
+                loc = where.get((cur, op), loc)
         chk.ob(
             have[op] == want[op],
             "A14.str-ops",
